@@ -201,7 +201,9 @@ def wrap_ufunc_productspace(name, n_in, n_out, doc):
                     return out
 
         elif n_out == 2:
-            def wrapper(self, out1=None, out2=None, **kwargs):
+            def wrapper(self, out1=None, out2=None, out=None, **kwargs):
+                if out is not None:
+                    out1, out2 = out
                 if out1 is None:
                     out1 = self.elem.space.element()
                 if out2 is None:
